@@ -67,6 +67,7 @@ def nested_function(outer, name, closure_locals):
     from pyvc.interp import Frame, IFunc, function_ast, qualname
     node = next(n for n in ast.walk(function_ast(outer)) if isinstance(n, ast.FunctionDef) and n.name == name)
     fr = Frame(dict(closure_locals), None, outer.__globals__, qualname(outer))
+    fr.harness_closure = True
     return IFunc(node, fr, qualname(outer) + ".<locals>." + name)
 
 
